@@ -146,3 +146,7 @@ pub use wtransport_proto as proto;
 pub use quinn;
 
 mod driver;
+
+/// Verification hooks (only with `--cfg wtransport_verif`).
+#[cfg(wtransport_verif)]
+pub use driver::verif;
